@@ -658,40 +658,22 @@ Lemma do_loop_post : forall st, Inv st -> ps_fm st = tpp_LoopID -> post (stepped
     gbind (fun r : iifrec * bool => isame i1 (fst r)).
     { apply iif_attrs_good; [exact Hfo|cbn; lia|lia]. }
     intros [i2 repush] [Eoff _]. cbn [fst snd] in *. cbn in Eoff.
-    (* the four shapes of the resulting state *)
-    assert (Hpush : forall i' cur', i_off i' = i_off i -> Forall leaf_ok cur' ->
-              structok fo ((init ++ [PIIf i' c subs]) :: rest) cur').
-    { intros i' cur' E Hc. repeat split.
-      - constructor; [|exact Hr1]. exists init, (PIIf i' c subs). split; [reflexivity|]. cbn. lia.
-      - constructor; [|exact Hr2]. apply Forall_snoc. split; [exact Hinit|exact I].
-      - exact Hc. }
     assert (Hplain : forall cur', Forall leaf_ok cur' -> structok fo rest cur') by (intros; repeat split; assumption).
-    assert (Hdropped : structok fo
-              (ps_stack (if repush then mkS fo 0 ((init ++ [PIIf i2 c subs]) :: rest) (removelast subs) true chain
-                         else mkS fo 0 rest init false chain))
-              (ps_cur (if repush then mkS fo 0 ((init ++ [PIIf i2 c subs]) :: rest) (removelast subs) true chain
-                       else mkS fo 0 rest init false chain)) /\
-            ps_fo (if repush then mkS fo 0 ((init ++ [PIIf i2 c subs]) :: rest) (removelast subs) true chain
-                   else mkS fo 0 rest init false chain) = fo /\
-            chainok (ps_stack (if repush then mkS fo 0 ((init ++ [PIIf i2 c subs]) :: rest) (removelast subs) true chain
-                   else mkS fo 0 rest init false chain))
-                    (ps_chain (if repush then mkS fo 0 ((init ++ [PIIf i2 c subs]) :: rest) (removelast subs) true chain
-                   else mkS fo 0 rest init false chain))).
-    { destruct repush; cbn [ps_stack ps_cur ps_fo ps_chain]; (split; [|split; [reflexivity|auto]]).
-      - apply Hpush; [exact Eoff|apply Forall_removelast; exact Hsubs].
-      - apply Hplain; exact Hinit. }
+    destruct repush.
+    { cbn [good ps_stack ps_cur ps_fo ps_chain]. split; [|split; [reflexivity|apply Hckp]]. repeat split.
+      - constructor; [|exact Hr1]. exists init, (PIIf i2 c subs). split; [reflexivity|]. cbn. lia.
+      - constructor; [|exact Hr2]. apply Forall_snoc. split; [exact Hinit|exact I].
+      - exact Hsubs. }
+    assert (Hdropped : structok fo rest init /\ fo = fo /\ chainok rest chain)
+      by (split; [apply Hplain; exact Hinit|split; [reflexivity|exact Hck]]).
     destruct (negb (N.eqb (i_toff i2) 0) || negb (N.eqb (i_foff i2) 0)); [|exact Hdropped].
     destruct (startid_scan subs _ 0) as [id|]; [|exact Hdropped].
-    match goal with |- good _ (bind (sub_tags_valid ?i3 subs) _) =>
-      assert (E3 : i_off i3 = i_off i) by (destruct (N.ltb (i_toff i2) (i_foff i2)); cbn; exact Eoff);
-      generalize dependent i3 end.
-    intros i3 E3.
+    destruct (255 <? id); [exact Hdropped|].
+    match goal with |- good _ (bind (sub_tags_valid ?i3 subs) _) => generalize i3 end.
+    intros i3.
     gbind (fun _ : bool => True); [apply sub_tags_valid_good; exact Hsubs|]. intros ok _.
-    destruct ok; destruct repush; cbn [good ps_stack ps_cur ps_fo ps_chain]; (split; [|split; [reflexivity|auto]]).
-    - apply Hpush; [exact E3|exact Hsubs].
-    - apply Hplain. apply Forall_snoc. split; [exact Hinit|exact I].
-    - apply Hpush; [exact E3|apply Forall_removelast; exact Hsubs].
-    - apply Hplain; exact Hinit.
+    destruct ok; cbn [good ps_stack ps_cur ps_fo ps_chain]; [|exact Hdropped].
+    split; [|split; [reflexivity|exact Hck]]. apply Hplain. apply Forall_snoc. split; [exact Hinit|exact I].
   Qed.
 
   Lemma do_line_end_post : forall st, Inv st -> ps_fm st = tpp_LineEndID -> post (rested st) (do_line_end content st).
